@@ -503,6 +503,9 @@ func affineD(v ssa.Value, d int) (Affine, bool) {
 		if isInduction(x) {
 			return affSym(inductionName(x.Block())), true
 		}
+		if _, ok := countedFrom(x); ok {
+			return affSym(desc(x)), true
+		}
 	case *ssa.Extract, *ssa.Lookup, *ssa.Index:
 		return affSym(desc(v)), true
 	}
